@@ -256,6 +256,19 @@ def write_files(base: Path, files: dict):
             f.write(text)
 
 
+def sync_files(base: Path, files: dict):
+    """Make the directory tree under base contain exactly `files` (in place: same paths as the previous
+    configuration, like an editor saving over a file or a checkout replacing it)."""
+    base.mkdir(parents=True, exist_ok=True)
+    want = {os.path.normpath(k) for k in files}
+    for dp, dn, fn in os.walk(base):
+        for f in fn:
+            rel = os.path.normpath(os.path.relpath(os.path.join(dp, f), base))
+            if rel not in want:
+                os.remove(os.path.join(dp, f))
+    write_files(base, files)
+
+
 # ---------------------------------------------------------------------------
 # tokens (for fault placement)
 
